@@ -26,6 +26,7 @@ import c04
 import hirq
 import layout as LY
 import layout2 as L2
+import sval
 import tables
 import bits
 from bits import BV, Evaluator
@@ -563,81 +564,58 @@ def inline_lets(e, lets, depth):
     return out
 
 
-def be_slice(e):
-    """(width_bytes, lo, hi) when e is uN::from_be_bytes(<buf>[lo..hi] ...) or uN::from_be_bytes(<whole array buf>), through
-    try_into/unwrap/casts; None otherwise"""
-    while e.get("k") in ("cast", "try") or (e.get("k") == "block" and not e.get("stmts") and "expr" in e):
-        e = e["e"] if "e" in e else e["expr"]
-    if e.get("k") != "call" or not (e.get("fn") or "").endswith("::from_be_bytes") or len(e["args"]) != 1:
-        return None
-    w = (bits.width_of(e.get("ty", "")) or 0) // 8
-    a = e["args"][0]
-    while a.get("k") == "mcall" and a["m"] in ("try_into", "unwrap", "expect", "into"):
-        a = a["recv"]
-    if a.get("k") == "index" and a["i"].get("k") == "struct" and a["i"].get("def", "").endswith("range::Range"):
-        f = {x["name"]: x["e"] for x in a["i"]["fields"]}
-        if f["start"].get("k") == "lit" and f["end"].get("k") == "lit":
-            return (w, f["start"]["val"], f["end"]["val"])
-        return None
-    m = re.match(r"\[u8; (\d+)\]$", a.get("ty", ""))
-    if m:
-        return (w, 0, int(m.group(1)))
-    return None
+def be_of_wire(t, read_no, lo, hi):
+    """is term t the big-endian integer made of bytes lo..hi of the `read_no`-th transfer?"""
+    b = sval.bv(t)
+    n = hi - lo
+    if b is None or b.w < 8 * n:
+        return False
+    want = {}
+    for i in range(n):
+        for k in range(8):
+            want[(n - 1 - i) * 8 + k] = ("wire#%d[%d]" % (read_no, lo + i), k)
+    return b.routing() == want and all(x == 0 for x in b.bits[8 * n:])
 
 
 def header_read_form(fx, fn):
-    root = hirq.body_root(fn)
-    lets = {}
-    for n, _ in hirq.walk(root):
-        if n.get("k") == "let" and n["pat"].get("k") == "bind" and "init" in n:
-            lets[n["pat"]["lid"]] = n["init"]
-    gate = None
-    for n, _ in hirq.walk(root):
-        if n.get("k") == "if" and "else" in n:
-            c = inline_lets(n["cond"], lets, 0)
-            if c.get("k") == "bin" and c["op"] == "Eq" and c["r"].get("k") == "lit" and c["r"]["val"] == 1 and be_slice(c["l"]) and be_slice(c["l"])[:3] == (4, 0, 4):
-                gate = n
-    if gate is None:
-        return False, "no `size == 1` test on the big-endian u32 at bytes 0..4"
+    """BoxHeader::read evaluated abstractly (sval): the checks look at the value it computes from the bytes of the
+    first and second transfer, not at how the source slices or destructures its buffer"""
+    bt = fx.impl_fn("BoxType", "From<u32>", "from")
+    sv = sval.SVal(fx, keep=lambda fid: bt is not None and fid == bt["id"])
+    t = sv.eval_fn(fn)
+    if t[0] != "ite":
+        return False, "no case distinction on the 32-bit size field (%s)" % sval.show(t)[:120]
+    c = t[1]
+    if not (c[0] == "cmp" and c[1] == "Eq" and be_of_wire(c[2], 1, 0, 4) and sval.const_val(c[3]) == 1):
+        return False, "the 64-bit form is not selected by `big-endian u32 at bytes 0..4 == 1` (%s)" % sval.show(c)[:160]
 
-    def struct_fields(sub):
-        for n, _ in hirq.walk(sub):
-            if n.get("k") == "struct" and (n.get("def") or "").endswith("BoxHeader"):
-                return {f["name"]: inline_lets(f["e"], lets, 0) for f in n["fields"]}
+    def header_of(x):
+        if x[0] == "return":
+            x = x[1]
+        if x[0] == "variant" and x[1].split("::")[-1] == "Ok" and x[2] and x[2][0][0] == "struct" and x[2][0][1].endswith("BoxHeader"):
+            return x[2][0][2]
         return None
-    big, small = struct_fields(gate["then"]), struct_fields(gate["else"])
-    if not big or not small:
-        return False, "a branch of the size test does not construct the header"
-    for tag, st in (("64-bit", big), ("32-bit", small)):
-        nm = st["name"]
-        arg = nm["args"][0] if nm.get("k") in ("call",) and nm.get("args") else (nm.get("recv") or nm)
-        if (be_slice(arg) or ())[:3] != (4, 4, 8):
-            return False, "%s form: the type is not the big-endian u32 at bytes 4..8" % tag
-    if (be_slice(small["size"]) or ())[:3] != (4, 0, 4):
+    big, small = header_of(t[2]), header_of(t[3])
+    if big is None or small is None:
+        return False, "a branch of the size test does not produce a header"
+    for tag, h in (("64-bit", big), ("32-bit", small)):
+        nm = h.get("name")
+        if not (nm and nm[0] == "conv" and be_of_wire(nm[2], 1, 4, 8)):
+            return False, "%s form: the type is not BoxType::from(big-endian u32 at bytes 4..8)" % tag
+    if not be_of_wire(small.get("size"), 1, 0, 4):
         return False, "32-bit form: size is not the big-endian u32 at bytes 0..4"
-    # 64-bit form: a second whole-buffer read of 8 bytes between the test and the construction, decoded big-endian
-    reads = [n for n, _ in hirq.walk(gate["then"]) if n.get("k") == "mcall" and n["m"] == "read_exact"]
-    if len(reads) != 1:
-        return False, "64-bit form: %d read_exact calls after the size test (expected one of 8 bytes)" % len(reads)
-    ms = [n for n, _ in hirq.walk(gate["then"]) if n.get("k") == "match" and n.get("src") == "match"]
-    if not ms:
-        return False, "64-bit form: no case analysis of largesize"
-    m = ms[0]
-    scrut = inline_lets(m["scrut"], lets, 0)
-    bs = be_slice(scrut)
-    if not bs or bs[:3] != (8, 0, 8):
-        return False, "64-bit form: largesize is not the big-endian u64 of the 8 bytes read after the type"
+    sz = big.get("size")
+    if not (sz and sz[0] == "table" and be_of_wire(sz[1], 2, 0, 8)):
+        return False, "64-bit form: the size is not derived from the big-endian u64 of the 8 bytes that follow the type"
+    if sv.reads != 2:
+        return False, "%d transfers in BoxHeader::read (expected 8 bytes, then 8 more in the 64-bit form)" % sv.reads
     accept = []
-    for p, r, arm in tables.match_table(fx, m):
-        b = arm["body"]
-        if b.get("k") == "bin" and b["op"] == "Sub" and b["r"].get("k") in ("lit", "path") and b["r"].get("val") is not None:
-            l = inline_lets(b["l"], lets, 0)
-            if be_slice(l) == bs:
-                accept.append(int(b["r"]["val"]))
+    for pat, res, arm in sz[2]:
+        if res[0] == "arith" and res[1] == "Sub" and res[2] == sz[1] and sval.const_val(res[3]) is not None:
+            accept.append(sval.const_val(res[3]))
     if accept != [8]:
         return False, "64-bit form: stored size is largesize minus %s; the 8 largesize bytes are the only header bytes beyond the compact form" % (accept or "nothing")
     return True, ""
-
 
 
 # ------------------------------------------------------------------------------------------------
